@@ -134,6 +134,27 @@ class Program:
             b.ismerge = len(b.preds) >= 2
             blocks.append(b)
         f.blocks = blocks
+        # append(s, make([]T, n)...): the compiler extends s in place (no temporary is allocated) when the
+        # make has no capacity argument and its only use is that append (cmd/compile walk: isAppendOfMake)
+        nuse = {}
+        for b in blocks:
+            for name, edges in b.phis:
+                for e in edges:
+                    if e is not None and e[0] == K_VAR:
+                        nuse[e[1]] = nuse.get(e[1], 0) + 2
+            for ins in b.instrs:
+                for v in self._uses(ins):
+                    nuse[v] = nuse.get(v, 0) + 1
+        for b in blocks:
+            mk = {}
+            for ins in b.instrs:
+                if ins['op'] == 'MakeSlice' and ins.get('len') == ins.get('cap'):
+                    mk[ins['name']] = ins
+                c = ins.get('call')
+                if c and c.get('callee') is not None and c['callee'][0] == K_BUILTIN and c['callee'][1] == 'append' and len(c['args']) == 2:
+                    a = c['args'][1]
+                    if a is not None and a[0] == K_VAR and a[1] in mk and nuse.get(a[1]) == 1:
+                        mk[a[1]]['append_of_make'] = True
         f.nreturns = sum(1 for b in blocks for i in b.instrs if i['op'] == 'Return')
         self._liveness(f)
         self._rpo(f)
